@@ -369,7 +369,7 @@ def gen_values(draw, st, i):
     return ["(setv [za%d #* zb%d] [%d 2 3])" % (i, i, n), "(setv zc%d (if (> za%d 3) (let [q za%d] (* q 2)) (try (/ 1 0) (except [e ZeroDivisionError] \"z\"))))" % (i, i, i)]
 
 
-def gen_entry(draw, st, mods, tabs, frm, taken, allow_local_shapes=False):
+def gen_entry(draw, st, mods, tabs, frm, taken, allow_local_shapes=False, taken_readers=()):
     """One require entry of a random documented shape whose new names do not collide with `taken`. Returns (entry, new names) or None."""
     mi = draw(st.integers(0, len(mods) - 1))
     mod, tab = mods[mi], tabs[mi]
@@ -410,6 +410,8 @@ def gen_entry(draw, st, mods, tabs, frm, taken, allow_local_shapes=False):
             e["readers"] = draw(st.lists(st.sampled_from(sorted(tab["readers"])), min_size=1, max_size=2, unique=True))
         e["rfirst"] = draw(st.booleans())
     new = apply_entry(e, mods, tabs)
+    if set(apply_readers(e, mods, tabs)) & set(taken_readers):
+        return None  # no reader macro name is bound twice in one module (same reason as for macro names)
     if shape != "none" and not new:
         return None
     if len(set(new)) != len(new) or any(n in taken for n in new):
@@ -441,7 +443,7 @@ def gen_import_case(draw, with_prog=None):
         readers = draw(st.lists(st.sampled_from(READER_NAMES), max_size=2, unique=True)) if draw(st.integers(0, 2)) == 0 else []
         mod = dict(path=loc + [last], macros=macros, readers=readers, reqs=[], export=None)
         if mods and draw(st.integers(0, 2)) == 0:
-            got = gen_entry(draw, st, mods, tabs, mod["path"], set(n for n, _ in macros))
+            got = gen_entry(draw, st, mods, tabs, mod["path"], set(n for n, _ in macros), taken_readers=set(readers))
             if got is not None:
                 mod["reqs"].append(got[0])
         mods.append(mod)
@@ -463,8 +465,8 @@ def gen_import_case(draw, with_prog=None):
     env = {}  # call name -> (info, usable)
     renv = {}
     nitems = draw(st.integers(3, 9))
-    own = []
     have_rt = False
+    force_ruse = False
     for i in range(nitems):
         choices = ["require", "require", "val"]
         if env:
@@ -473,6 +475,9 @@ def gen_import_case(draw, with_prog=None):
             choices += ["ruse"] * 4
         choices += ["hyR", "localreq", "own"]
         c = draw(st.sampled_from(choices))
+        if force_ruse and renv:
+            c = "ruse"
+        force_ruse = False
         if i == 0:
             c = "require"
         if i == nitems - 1 and env and not have_rt:
@@ -481,7 +486,7 @@ def gen_import_case(draw, with_prog=None):
             entries = []
             taken = set(env)
             for _ in range(draw(st.sampled_from([1, 1, 1, 2, 3]))):
-                got = gen_entry(draw, st, mods, tabs, frm, taken)
+                got = gen_entry(draw, st, mods, tabs, frm, taken, taken_readers=set(renv))
                 if got is None:
                     continue
                 e, new = got
@@ -489,6 +494,8 @@ def gen_import_case(draw, with_prog=None):
                 taken |= set(new)
                 for n, info in new.items():
                     env[n] = (info, usable(e, mods, tabs, n))
+                if apply_readers(e, mods, tabs):
+                    force_ruse = draw(st.integers(0, 2)) > 0
                 renv.update(apply_readers(e, mods, tabs))
             if entries:
                 items.append(dict(t="require", entries=entries))
@@ -643,6 +650,8 @@ def invalid(case):
                 if taken & set(new):
                     return "re-export collides"
                 taken |= set(new)
+                if set(apply_readers(e, mods, tabs)) & set(mod["readers"]):
+                    return "re-exported reader macro collides"
             ex = mod.get("export")
             if ex is not None and (not ex["names"] or any(n not in tabs[k]["macros"] for n in ex["names"])):
                 return "export of an unknown macro"
@@ -662,6 +671,8 @@ def invalid(case):
                         return "macro name brought in twice"
                     for n, info in new.items():
                         env[n] = (info, usable(e, mods, tabs, n))
+                    if set(apply_readers(e, mods, tabs)) & set(renv):
+                        return "reader macro name brought in twice"
                     renv.update(apply_readers(e, mods, tabs))
             elif t == "own":
                 if it["name"] in env:
